@@ -34,7 +34,8 @@ def make(t, labels):
         return gen.force3d(n, [gen.mk_ftrack(n, (True, i % 2 == 0), lab, i) for i, lab in enumerate(labels)])
     if t == R.T_EMG:
         return gen.emg(n, [(i, gen.mk_emgsig(n, (True, i % 2 == 0), lab, i)) for i, lab in enumerate(labels)])
-    return gen.events([gen.mk_event(lab, 1, 2, i) for i, lab in enumerate(labels)])
+    # value counts 0, 1, 2 by position: an event without values must be found like any other
+    return gen.events([gen.mk_event(lab, 1, i % 3, i) for i, lab in enumerate(labels)])
 
 
 def make_block(t, labels, origin):
